@@ -254,3 +254,49 @@ def rule_declaration_merge(ctx, rep, config="c-lib"):
                               ", ".join(seenc) or "<no test of the kept code>"), where=s_.where(), witness=[s_.where()])
     finally:
         expr.NAMED[0] = False
+
+
+LEXER_WRITES = set(["curr_ch", "ln", "stoks", "yaep_yylval"])
+
+
+def rule_lexer_discipline(ctx, rep, config="c-lib"):
+    rep.rule("C11-lexer", "the scanner runs one token ahead of the parser actions, so it writes only its own state (cursor, line counter, token storage, yylval) and never a "
+                          "variable the actions read later (current left-hand side, cost, rule/terminal lists); numbers are read in base 10: a NUMBER value is "
+                          "digit - '0' or 10 * value + digit - '0', and a library conversion is called with base 10")
+    p = ctx.prog(config)
+    f = p.fn("yaep_yylex")
+    rep.cover(p, [f.name])
+    written = {}
+    for s_ in f.all_insts():
+        if s_.op == "store":
+            pa = resolve_addr(f, s_.ops[1])
+            if pa.root[0] == "g":
+                written.setdefault(pa.root[1], s_)
+    extra = sorted(set(written) - LEXER_WRITES)
+    if extra:
+        rep.violation("C11-lexer", "yylex/writes-own-state-only", "the scanner writes `%s', which the parser actions read: the scanner is one token ahead (lookahead), so an "
+                      "action still working on the previous rule sees the value of the next one" % ", ".join(extra), where=written[extra[0]].where(),
+                      witness=[written[e].where() for e in extra])
+    else:
+        rep.ok("C11-lexer", "yylex/writes-own-state-only", sample={"globals_written": sorted(written)})
+    # base 10
+    expr.NAMED[0] = True
+    try:
+        forms = []
+        for s_ in f.all_insts():
+            if s_.op == "store" and resolve_addr(f, s_.ops[1]).root == ("g", "yaep_yylval"):
+                v = lin(f, s_.ops[0], 0, 2)
+                if any("yaep_yylval" in a for a in v.t):
+                    forms.append((s_, v))
+        bad = [(s_, v) for (s_, v) in forms if not (v.c == -48 and sorted(v.t.values()) == [1, 10])]
+    finally:
+        expr.NAMED[0] = False
+    conv = [c for c in f.calls() if c.callee in ("strtol", "strtoul", "strtoll", "strtoull", "__isoc99_sscanf", "sscanf", "atoi", "atol")]
+    badconv = [c for c in conv if not (c.callee.startswith("strto") and len(c.args) >= 3 and const_int(c.args[2]) == 10)]
+    if bad or badconv or (not forms and not conv):
+        w = bad[0][0] if bad else (badconv[0] if badconv else f.insts[min(f.insts)])
+        rep.violation("C11-lexer", "yylex/numbers-base-10", "a NUMBER token is not read as a decimal number (%s): codes, costs and symbol numbers written with a leading zero or "
+                      "followed by `x...' get another value" % ("accumulation %r" % bad[0][1] if bad else ("%s with a base other than 10" % badconv[0].callee if badconv else
+                                                                                                               "no accumulation found")), where=w.where(), witness=[w.where()])
+    else:
+        rep.ok("C11-lexer", "yylex/numbers-base-10", sample={"accumulations": len(forms), "conversions": len(conv)})
